@@ -40,8 +40,9 @@ def merge_block(f):
     """Statements of the `else` arm of `if i == 0` inside the multi-chain loop of finalize."""
     for n in ast.walk(f.node):
         if isinstance(n, ast.For) and isinstance(n.iter, ast.Call) and norm(n.iter.func) == "enumerate":
+            idx = norm(n.target.elts[0]) if isinstance(n.target, ast.Tuple) and n.target.elts else "i"
             for st in n.body:
-                if isinstance(st, ast.If) and norm(st.test) in ("i == 0", "0 == i") and st.orelse:
+                if isinstance(st, ast.If) and norm(st.test) in (f"{idx} == 0", f"0 == {idx}", f"not {idx}", f"{idx} < 1") and st.orelse:
                     return n, st
     return None, None
 
@@ -166,7 +167,9 @@ def rule_r1(rep, program: Program):
             if isinstance(st, ast.If) and st.body and isinstance(st.body[-1], ast.Return) and not st.orelse:
                 continue  # guard clause: the update is the fall-through path
             if isinstance(st, ast.If):
-                stmts += st.body
+                # the arm that performs the update (the other arm does nothing)
+                arms = [a for a in (st.body, st.orelse) if any(isinstance(n, ast.AugAssign) for x in a for n in ast.walk(x))]
+                stmts += arms[0] if arms else st.body
             elif isinstance(st, ast.Return) and st.value is None:
                 continue
             else:
